@@ -88,8 +88,8 @@ def _edits(tier, flavour="plain", cfgs=(0,), devs=False):
     return jobs
 
 
-_EDITS_RULE = ("; cutmc edits: 22 base exchanges (plain, bodies, chunked+trailers, HEAD, PUT, 100-continue, 0.9, pipelines, CONNECT accepted/refused, upgrade, close-delimited, "
-               "folded headers, urlencoded, multipart, invalid / valid gzip) with <= E token-level edits (insert / delete / duplicate / replace by a pool token, truncate after / inside a token, stream gap) under every "
+_EDITS_RULE = ("; cutmc edits: 23 base exchanges (plain, bodies, chunked+trailers, HEAD, PUT, 100-continue accepted / refused mid-upload, 0.9, pipelines, CONNECT accepted/refused, upgrade, close-delimited, "
+               "folded headers, urlencoded, multipart (as one chunk and one line per chunk with its own pool of 38 multipart tokens), invalid / valid gzip) with <= E token-level edits (insert / delete / duplicate / replace by a pool token, truncate after / inside a token, stream gap) under every "
                "schedule of the two token lists with <= P preemptions, per configuration of the statemc menu; where stated, every execution again with one callback deviation at every callback ordinal")
 
 
@@ -336,7 +336,9 @@ def _c01_jobs(tier):
         J("cutmc", "asan", ["--mode", "corpus"]),
         # labelled scenario: TRANSACTION_COMPLETE destroys its own transaction (auto-destroy off)
         J("statemc", "asan", ["--alphabet", "macro", "--depth", d("4", "5"), "--cfg", "0", "--devdepth", d("4", "5"), "--selfdestroy"]),
-    ] + _edits(tier, "asan", cfgs=(0, 1) if q else (0, 1, 3, 5), devs=True)
+    ] + _edits(tier, "asan", cfgs=(0, 1, 30) if q else (0, 1, 3, 5, 30), devs=True) + (
+        # damaged multipart bodies two edits deep, with file extraction to disk (multipart lines as self-framed HTTP chunks, multipart pool)
+        [] if q else [J("cutmc", "asan", ["--mode", "edits", "--cfg", "30", "--edits", "2", "--preempt", "0", "--onlybase", "one line"])])
     if not q:
         jobs += [J("statemc", "asan", ["--alphabet", "micro", "--depth", "3", "--cfg", str(c), "--devdepth", "2"]) for c in (3, 4, 5, 9, 13)]
     return jobs
